@@ -2,7 +2,7 @@
    Only the property theorems; each is closed by a lemma of Proofs*.v and followed by
    Print Assumptions.  POLY_COMPARES_COMPTIME_VALUES / POP_CHECKPOINT_MERGES are scraped (Gen.v). *)
 From Coq Require Import ZArith Bool List Permutation.
-From C16 Require Import Gen Model ProofsMemo ProofsPoly ProofsHygiene ProofsExpand ProofsInject ProofsCursor.
+From C16 Require Import Gen Model ProofsMemo ProofsGeneric ProofsPoly ProofsHygiene ProofsExpand ProofsInject ProofsCursor.
 Import ListNotations.
 Local Open Scope Z_scope.
 
@@ -29,6 +29,16 @@ Theorem C16_memoize_once_per_class :
     snd (memo_run A R eqv f perms c n args) = (n + new_classes A eqv (map fst c) args)%nat.
 Proof. exact memo_run_evaluations_lemma. Qed.
 Print Assumptions C16_memoize_once_per_class.
+
+(* the premises are discharged for the argument match of generics as modelled (types by identity,
+   comptime values by value, an omitted parameter = nil): equal argument lists -> the same type object *)
+Theorem C16_generic_same_type :
+  forall (args : list (list garg)) i j ai aj ri rj,
+    nth_error args i = Some ai -> nth_error args j = Some aj ->
+    nth_error (fst (generic_run args)) i = Some ri -> nth_error (fst (generic_run args)) j = Some rj ->
+    ai = aj -> ri = rj.
+Proof. exact generic_same_type_lemma. Qed.
+Print Assumptions C16_generic_same_type.
 
 (* eval_poly returns an existing evaluation iff poly_args_matches holds for one (the first), and
    appends exactly one otherwise; alwayspoly always appends *)
@@ -95,19 +105,6 @@ Proof.
 Qed.
 Print Assumptions C16_hygiene_resolution.
 
-(* what the merging pop used before b8843bb still guaranteed (vacuous for today's policy): every
-   use-site binding is what it was *)
-Theorem C16_hygiene_use_site_preserved_partial :
-  POP_CHECKPOINT_MERGES = true ->
-  forall s cp body inside s3,
-    length cp = length (cur s) -> (forall c, length (body c) = length c) ->
-    hygienic_call POP_CHECKPOINT_MERGES s cp body = Some (inside, s3) ->
-    forall i m mb, nth_error (cur s) i = Some m -> nth_error (body inside) i = Some mb ->
-      exists m3, nth_error (cur s3) i = Some m3 /\
-                 forall k, m3 k = match m k with Some v => Some v | None => mb k end.
-Proof. intros ->. exact hygiene_after_merge_lemma. Qed.
-Print Assumptions C16_hygiene_use_site_preserved_partial.
-
 (* MAIN HYGIENE OBLIGATION (full strength).  After a hygienized call the scopes are exactly what they
    were: every use-site binding is preserved AND no name introduced by the body stays behind.  It holds
    for the code as it is (pop_checkpoint restores with set_checkpoint since b8843bb; the policy fact
@@ -118,13 +115,11 @@ Theorem C16_hygiene_no_leak : C16_hygiene_no_leak_full.
 Proof. exact hygiene_no_leak_with_set_lemma. Qed.
 Print Assumptions C16_hygiene_no_leak.
 
-(* the merging pop used before b8843bb violated it (vacuous for today's policy) *)
-Theorem C16_hygiene_no_leak_refuted : POP_CHECKPOINT_MERGES = true -> ~ C16_hygiene_no_leak_full.
-Proof. unfold C16_hygiene_no_leak_full. intros ->. exact hygiene_no_leak_refuted_lemma. Qed.
-Print Assumptions C16_hygiene_no_leak_refuted.
-Theorem C16_hygiene_no_leak_after_repair : hygiene_no_leak false.
-Proof. exact hygiene_no_leak_with_set_lemma. Qed.
-Print Assumptions C16_hygiene_no_leak_after_repair.
+(* the restoring pop is necessary: a pop that merges the saved symbols back (the code before b8843bb)
+   violates the statement - a name declared by the body stays in the definition scope *)
+Theorem C16_restoring_pop_needed : ~ hygiene_no_leak true.
+Proof. exact hygiene_no_leak_refuted_lemma. Qed.
+Print Assumptions C16_restoring_pop_needed.
 
 (* a name NOT bound at definition time resolves in the un-checkpointed part (the root scope when the
    generic was defined in a nested scope) as it is at the time of the call *)
@@ -155,27 +150,6 @@ Theorem C16_expand_if_call :
     expand_stmt e (TCall v arg body) = expand (eset e v (eval e arg)) body.
 Proof. intros; split; [apply expand_if_lemma|apply expand_call_lemma]. Qed.
 Print Assumptions C16_expand_if_call.
-
-(* where a hygienized function injects: a body that only emits puts its statements as one block at
-   the function's definition point, in emission order ... *)
-Theorem C16_hygienize_flat_call_block_partial :
-  HYGIENIZE_USES_CURSORS = false ->        (* the index bookkeeping of today's code (h_run), not the cursor variant *)
-  forall s h xs,
-    (h_saved s h <= length (h_nodes s))%nat ->
-    h_nodes (h_run HYGIENIZE_ADJUSTS_CALLER s (HCall h (map HEmit xs)))
-    = firstn (h_saved s h) (h_nodes s) ++ xs ++ skipn (h_saved s h) (h_nodes s) /\
-    h_saved (h_run HYGIENIZE_ADJUSTS_CALLER s (HCall h (map HEmit xs))) h = (h_saved s h + length xs)%nat.
-Proof. intros _ s h xs L. exact (flat_call_block_lemma HYGIENIZE_ADJUSTS_CALLER s h xs L). Qed.
-Print Assumptions C16_hygienize_flat_call_block_partial.
-
-(* the index bookkeeping used before 6cc3727 (h_run) violated the own-order statement: a nested
-   hygienized call defined at or before the caller's definition point shifted the list under the
-   caller's saved index (vacuous for today's policy; the obligation is C16_hygienize_own_order below) *)
-Definition C16_hygienize_own_order_full : Prop := inject_own_order HYGIENIZE_ADJUSTS_CALLER.
-Theorem C16_hygienize_own_order_refuted :
-  HYGIENIZE_USES_CURSORS = false -> HYGIENIZE_ADJUSTS_CALLER = false -> ~ C16_hygienize_own_order_full.
-Proof. unfold C16_hygienize_own_order_full. intros _ ->. exact inject_own_order_refuted_lemma. Qed.
-Print Assumptions C16_hygienize_own_order_refuted.
 
 (* MAIN INJECTION-ORDER OBLIGATION (full strength).  hygienize keeps, since 6cc3727, one cursor per
    hygienized function which add_statnode keeps up to date (model hc_run; the scrape sets
